@@ -1899,6 +1899,13 @@ func (mp *mapProto) entryTables() {
 					}
 				}
 			}
+			// (4) "stored the caller's value, nothing was there" (value parameter, loaded=false, ok=true) needs a successful
+			// CAS from nil: from any other old value it overwrites what a concurrent caller stored
+			if len(p.Rets) == 3 && p.Rets[0].Op == "param" && p.Rets[1].IsConst("false") && p.Rets[2].IsConst("true") {
+				if lastCAS == nil || !casOK || len(lastCAS.Args) != 3 || !lastCAS.Args[1].IsNil() {
+					ok, why = false, fmt.Sprintf("a path (%s) reports 'stored, not loaded' without a successful compare-and-swap from nil", p.CondString())
+				}
+			}
 			// (3) success reported right after a CAS needs that CAS to have succeeded
 			if lastOp == "cas" && !casOK {
 				for _, r := range p.Rets {
